@@ -126,6 +126,21 @@ func c16catalogue() []c16item {
 		inner := refserver.Container([]refserver.Out{{MsgID: e.srv.NextMsgID(3), SeqNo: 0, Body: refserver.Pong(1, 2)}})
 		return refserver.Container([]refserver.Out{{MsgID: e.srv.NextMsgID(3), SeqNo: 0, Body: inner}})
 	})
+	add("nested-container-depth-50", false, false, func(r *rand.Rand, e *rpcEnv, a pendingReq) []byte {
+		b := refserver.Pong(1, 2)
+		for i := 0; i < 50; i++ {
+			b = refserver.Container([]refserver.Out{{MsgID: e.srv.NextMsgID(3), SeqNo: 0, Body: b}})
+		}
+		return b
+	})
+	add("container-notification-then-update", false, true, func(r *rand.Rand, e *rpcEnv, a pendingReq) []byte {
+		bad := append(append(append(le32(0xa7eff811), le64i(int64(r.Uint64())&^3)...), le32(3)...), le32(33)...)
+		return refserver.Container([]refserver.Out{{MsgID: e.srv.NextMsgID(3), SeqNo: 0, Body: bad}, {MsgID: e.srv.NextMsgID(3), SeqNo: 1, Body: apiUpdateBody(r)},
+			{MsgID: e.srv.NextMsgID(3), SeqNo: 2, Body: refserver.NewSessionCreated(1, 2, e.salt())}})
+	})
+	add("container-garbage-then-result-repeat", false, false, func(r *rand.Rand, e *rpcEnv, a pendingReq) []byte {
+		return refserver.Container([]refserver.Out{{MsgID: e.srv.NextMsgID(3), SeqNo: 1, Body: le32(0xdeadbeef)}, {MsgID: e.srv.NextMsgID(1), SeqNo: 3, Body: refserver.RPCResult(a.msgID, a.res)}})
+	})
 	add("container-item-garbage", false, false, func(r *rand.Rand, e *rpcEnv, a pendingReq) []byte {
 		return refserver.Container([]refserver.Out{{MsgID: e.srv.NextMsgID(3), SeqNo: 1, Body: rbytes(r, 16)}})
 	})
@@ -274,6 +289,17 @@ func c16case(c *wk.Ctx, idx int, r *rand.Rand, seq []c16item, variant int) {
 			continue
 		}
 		body := it.build(r, e, last)
+		// any item may also travel inside a container next to an update, or gzip-packed
+		switch {
+		case len(seq) > 1 && r.Intn(5) == 0:
+			body = refserver.Container([]refserver.Out{{MsgID: e.srv.NextMsgID(3), SeqNo: cn.NextSeq(it.Content), Body: body}, {MsgID: e.srv.NextMsgID(3), SeqNo: cn.NextSeq(true), Body: apiUpdateBody(r)}})
+			c.Count("wrapped.container", 1)
+			e.sendService(cn, body, false, it.Name+"+container")
+			continue
+		case len(seq) > 1 && r.Intn(8) == 0:
+			body = refserver.Gzip(body)
+			c.Count("wrapped.gzip", 1)
+		}
 		e.sendService(cn, body, it.Content, it.Name)
 	}
 	e.quiesce(time.Second)
